@@ -15,7 +15,8 @@ Definition totals_neg (t : totals) : totals :=
            (oneg (t_tax_included t)) (negate (t_total t)) (negate (t_tax t)) (negate (t_twt t))
            (negate (t_payable t)) (oneg (t_advances t)) (oneg (t_due t))
            (map negate (t_dd t)) (map negate (t_cc t)) (map negate (t_adv_rows t)) (map negate (t_dues t))
-           (map ct_negate (t_cats t)) (negate (t_taxsum t)) (negate (t_taxsum_precise t)).
+           (map ct_negate (t_cats t)) (negate (t_taxsum t)) (negate (t_taxsum_precise t))
+           (oneg (t_rounding t)).
 
 Definition result_neg (r : calc_result) : calc_result :=
   match r with
